@@ -131,10 +131,66 @@ def run(ctx):
                "TopicLogSync::run can exit (%s) without having sent SessionFinished or Failed: consumers never learn "
                "that the session ended" % cause, site=b.loc(bb), key="C22.2:exit-without-terminal:%s" % cause)
     ctx.floor("C22.2", "exits of TopicLogSync::run examined", n_exit, 4)
+    # C22.3 — the terminal event agrees with what the session returns: the Result whose variant selects between
+    # SessionFinished and Failed is the very value `run` returns on that path (no later step can still turn a session
+    # that announced SessionFinished into an Err, or the other way round).
+    from mir import trace_back, branches_on
+    term_aggs = {}
+    for bb, k, pl, rv, s_ in b.assigns():
+        if rv["k"] == "agg" and strip_generics(rv.get("adt") or "") == EVT and rv["variant"] in TERMINAL:
+            term_aggs.setdefault(rv["variant"], []).append(bb)
+    sel = None
+    for bb, t in b.terms("switch"):
+        p_ = op_place(t["discr"])
+        if p_ is None:
+            continue
+        for kind, dbb, idx, rv in b.defs_of(p_.local):
+            if kind == "assign" and rv["k"] == "discr" and strip_generics(rv.get("adt") or "") == "core::result::Result":
+                tgts = [tg for _, tg in t["targets"]] + [t["otherwise"]]
+                reach = {tg: b.reachable(tg) for tg in tgts}
+                fin = [tg for tg in tgts if any(x in reach[tg] for x in term_aggs.get("SessionFinished", []))
+                       and not any(x in reach[tg] and x not in b.reachable(term_aggs.get("SessionFinished", [0])[0]) for x in [])]
+                if any(any(x in reach[tg] for x in term_aggs.get("SessionFinished", [])) for tg in tgts) and \
+                        any(any(x in reach[tg] for x in term_aggs.get("Failed", [])) for tg in tgts) and \
+                        any(not any(x in reach[tg] for x in term_aggs.get("SessionFinished", [])) for tg in tgts):
+                    sel = (bb, Place(rv["place"]))
+    if ctx.ob("C22.3", "the final event is selected by matching a Result", sel is not None,
+              "anchor-missing: no match on a Result that selects between SessionFinished and Failed", site=b.loc(), trivial=True):
+        sbb, splace = sel
+        # the matched value: through `.as_ref()` back to the session's result local
+        base = splace.local
+        for _ in range(4):
+            ds = b.defs_of(base)
+            if len(ds) == 1 and ds[0][0] == "call" and callee_is_any(ds[0][3], ("core::result::Result::as_ref",)):
+                q = op_place(ds[0][3]["args"][0])
+                base = trace_back(b, q.local)[-1][0] if q is not None else base
+            else:
+                nb = trace_back(b, base)[-1][0]
+                if nb == base:
+                    break
+                base = nb
+        rets = []
+        for bb, k, pl, rv, s_ in b.assigns():
+            if pl.local == 0 and not pl.proj and rv["k"] == "use" and bb in b.reachable(sbb):
+                q = op_place(rv["op"])
+                if q is not None:
+                    rets.append((bb, k, trace_back(b, q.local)[-1][0]))
+        ctx.floor("C22.3", "returns of the session result behind the final event", len(rets), 1)
+        for bb, k, rl in rets:
+            ctx.ob("C22.3", "the returned Result is the one the final event was chosen from", rl == base,
+                   "TopicLogSync::run chooses SessionFinished / Failed by matching one Result (local _%s) but returns another "
+                   "(local _%s) that is computed afterwards: a session can announce SessionFinished and still return Err (e.g. "
+                   "when closing the sink fails), or announce Failed and return Ok" % (base, rl), site=b.loc(bb, k),
+                   key="C22.3:event-matches-result")
     # the inner protocol emits no terminal events itself
     inner = [c for c in constructors_of(ctx.prog, EVT) if "log_sync::" in c[0].root and "topic_log_sync" not in c[0].root
              and c[3]["variant"] in TERMINAL]
     ctx.ob("C22.2", "LogSync (inner protocol) emits no terminal session event", not inner, "%s" % inner)
+
+
+def callee_is_any(term, names):
+    from facts import callee_is
+    return callee_is(term["func"], *names)
 
 
 MANIFEST = {
